@@ -130,7 +130,7 @@ type SpyEv struct {
 	Filter  int
 	Method  string
 	SID     string
-	Tokens  *oidc.TokenResponse     // argument (Set) or result (Get)
+	Tokens  *oidc.TokenResponse      // argument (Set) or result (Get)
 	State   *oidc.AuthorizationState // argument (Set) or result (Get)
 	Err     error
 	Fault   string
@@ -139,10 +139,10 @@ type SpyEv struct {
 
 type FilterRT struct {
 	StaticKeys []*SignKey // keys in the configuration file (static JWKS)
-	Spec *FilterSpec
-	Idx  int
-	IdP  *IdP
-	Cfg  *oidcv1.OIDCConfig // the loaded (merged) configuration object of this filter
+	Spec       *FilterSpec
+	Idx        int
+	IdP        *IdP
+	Cfg        *oidcv1.OIDCConfig // the loaded (merged) configuration object of this filter
 }
 
 type Replica struct {
@@ -185,21 +185,21 @@ type World struct {
 	cfgPath     string
 	RedisDown   bool
 	// sites records the seam calls of this run in order (for the systematic fault sweep).
-	sites   []string
-	sessions  map[string]*SessModel
-	presented map[string]bool
-	codeDone  map[string]*CheckRec
-	pendingDone []doneMark
-	chainSID  map[int]string
-	lostReply map[int]bool
-	k8sMode   bool
-	K8s       client.Client
-	k8sRef    map[string]string // secret name -> value as of the last completed reconcile
+	sites            []string
+	sessions         map[string]*SessModel
+	presented        map[string]bool
+	codeDone         map[string]*CheckRec
+	pendingDone      []doneMark
+	chainSID         map[int]string
+	lostReply        map[int]bool
+	k8sMode          bool
+	K8s              client.Client
+	k8sRef           map[string]string // secret name -> value as of the last completed reconcile
 	crossFilterKnown bool
-	corruptStore bool
-	Boots   int
-	evlog   []string
-	SimSecs float64
+	corruptStore     bool
+	Boots            int
+	evlog            []string
+	SimSecs          float64
 }
 
 func NewWorld(spec *WorldSpec, schedSeed uint64, policy int, faults []Fault) *World {
@@ -397,6 +397,10 @@ func (w *World) Boot() *Replica {
 	r.tlsPool = internal.NewTLSConfigPool(r.ctx)
 	r.jwks = oidc.NewJWKSProvider(r.cfg, r.tlsPool)
 	go func() { _ = r.jwks.ServeContext(r.ctx) }()
+	// let the service goroutine run up to its blocking point before anything else happens (in the bubble
+	// the clock only moves once every goroutine is blocked), as in a deployment where it starts long
+	// before the first request; this also keeps the start-up order deterministic
+	time.Sleep(time.Microsecond)
 	r.sessions = oidc.NewSessionStoreFactory(r.cfg)
 	if err := r.sessions.PreRun(); err != nil {
 		r.BootErr = fmt.Errorf("%w: sessions: %v", errBoot, err)
@@ -795,35 +799,35 @@ func (w *World) Peek(fi int, sid string) *SessSnap {
 // ---------------------------------------------------------------------------------------------
 
 type CheckRec struct {
-	N        int
-	Seq0     int64
-	Seq1     int64
-	T0, T1   time.Time
-	Task     int
-	Browser  int
-	Label    string
-	Scheme   string
-	Host     string
-	Path     string // path incl. query, as Envoy sends it
-	Headers  map[string]string
-	Filter   int    // model: OIDC filter this request is subject to (-1: none)
-	Subject  string // model: oidc | untriggered | unmatched
-	SID      string // session id presented under the subject filter's cookie name
-	Resp     *envoy.CheckResponse
-	Err      error
-	Panic    any
-	Class    string // ok | redirect-idp | redirect-url | logout | deny | error | panic
-	Code     int32
-	HTTP     int32
-	Location string
-	SetCookie []string
-	Body     string
-	OKHeaders map[string]string
-	Spy      []*SpyEv
-	TokenReqs []*TokenReq
-	Faults   []string
-	Before   *SessSnap
-	After    *SessSnap
+	N          int
+	Seq0       int64
+	Seq1       int64
+	T0, T1     time.Time
+	Task       int
+	Browser    int
+	Label      string
+	Scheme     string
+	Host       string
+	Path       string // path incl. query, as Envoy sends it
+	Headers    map[string]string
+	Filter     int    // model: OIDC filter this request is subject to (-1: none)
+	Subject    string // model: oidc | untriggered | unmatched
+	SID        string // session id presented under the subject filter's cookie name
+	Resp       *envoy.CheckResponse
+	Err        error
+	Panic      any
+	Class      string // ok | redirect-idp | redirect-url | logout | deny | error | panic
+	Code       int32
+	HTTP       int32
+	Location   string
+	SetCookie  []string
+	Body       string
+	OKHeaders  map[string]string
+	Spy        []*SpyEv
+	TokenReqs  []*TokenReq
+	Faults     []string
+	Before     *SessSnap
+	After      *SessSnap
 	Overlapped bool
 	Perturbed  bool // the store content was perturbed (eviction, corruption) during this check
 	Abandoned  bool // the replica crashed inside this check: no verdict
